@@ -54,8 +54,25 @@ def gen(rnd):
                 cross.append((a, b))
     lo = rnd.choice([0.3, 0.5])
     hi = rnd.choice([0.9, 1.1, 1.6])
+    exact = []
+    if rnd.random() < 0.3:
+        # lattice mode: coordinates and cut-offs are multiples of 0.25 nm, so backbone distances along an axis equal a cut-off
+        # bit for bit ("strictly between the cut-offs" is decided at equality, not next to it)
+        lo = rnd.choice([0.25, 0.5])
+        hi = rnd.choice([0.75, 1.0, 1.25, 1.5])
+        for ch in chains:
+            for r in ch['res']:
+                r['pos'] = [[rnd.randrange(0, 9) * 0.25 for _ in range(3)] for _ in r['beads']]
+        if len(allres) >= 2:
+            for _ in range(rnd.randint(1, 3)):
+                a, b = rnd.sample(allres, 2)
+                pa = list(chains[a[0]]['res'][a[1]]['pos'][0])
+                ax = rnd.randrange(3)
+                pa[ax] += rnd.choice([lo, hi]) * rnd.choice([1, -1])
+                chains[b[0]]['res'][b[1]]['pos'][0] = pa
+                exact.append((a, b))
     # plant near-cutoff backbone pairs
-    if len(allres) >= 2 and rnd.random() < 0.5:
+    if len(allres) >= 2 and rnd.random() < 0.5 and not exact:
         for _ in range(rnd.randint(1, 3)):
             a, b = rnd.sample(allres, 2)
             v = np.array([rnd.gauss(0, 1) for _ in range(3)])
@@ -73,6 +90,9 @@ def gen(rnd):
         contacts.add(ident(a) + ident(b))
         if rnd.random() < 0.7:
             contacts.add(ident(b) + ident(a))
+    for a, b in exact:
+        contacts.add(ident(a) + ident(b))
+        contacts.add(ident(b) + ident(a))
     if rnd.random() < 0.3 and allres:
         x = ident(allres[0])
         contacts.add((999, 'A') + x)
@@ -83,7 +103,7 @@ def gen(rnd):
         contacts.add(ident(allres[0]) + (x[0], 'Z'))
     contacts = sorted(contacts)
     rnd.shuffle(contacts)
-    return {'chains': chains, 'cross': cross, 'contacts': [list(c) for c in contacts], 'lo': lo, 'hi': hi,
+    return {'chains': chains, 'cross': cross, 'contacts': [list(c) for c in contacts], 'lo': lo, 'hi': hi, 'lattice': bool(exact),
             'res_dist': rnd.choice([0, 1, 2, 3, 4]), 'eps': rnd.choice([9.414, 12.0]),
             'moltype': rnd.choice(['mol', 'molecule_0', 'Go_prot', 'P'] if rnd.random() < 0.15 else ['mol', 'molecule_0', 'Go_prot']),
             'bb': rnd.choice(['BB', 'BB', 'B1']), 'site': rnd.choice(['CA', 'VS']),
@@ -180,9 +200,13 @@ def reference(case, mol, nold):
             rej['separation'] += 1
             continue
         d = math.dist(mol.nodes[ba]['position'], mol.nodes[bb_]['position'])
-        if min(abs(d - case['lo']) / case['lo'], abs(d - case['hi']) / case['hi']) < 1e-9:
+        on_lattice = case.get('lattice') and all(float(x * 4).is_integer() for n_ in (ba, bb_) for x in mol.nodes[n_]['position'])
+        if min(abs(d - case['lo']) / case['lo'], abs(d - case['hi']) / case['hi']) < 1e-9 and not on_lattice:
+            # (on the lattice every step of the distance computation is exact, so equality with a cut-off is decided: excluded)
             undecided.add(pair)
             continue
+        if on_lattice and d in (case['lo'], case['hi']):
+            rej['exactly-on-cut-off'] = rej.get('exactly-on-cut-off', 0) + 1
         if d <= case['lo']:
             rej['short'] += 1
             continue
@@ -304,7 +328,7 @@ def run_case(params):
             continue
         exp, rej = extra
         b.feat({'expected_contacts': len(exp), 'rej_one_directional': rej['one-directional'], 'rej_absent': rej['absent'],
-                'rej_separation': rej['separation'], 'rej_short': rej['short'], 'rej_long': rej['long'],
+                'rej_separation': rej['separation'], 'rej_short': rej['short'], 'rej_long': rej['long'], 'rej_exactly_on_cut_off': rej.get('exactly-on-cut-off', 0),
                 'with_cross_link': int(bool(case['cross'])), 'several_molecules_merged_by_pipeline':
                     int(not (case['premerged'] or case['cross']) and len(case['chains']) > 1)})
         if len(case['chains']) >= 2 and case['cross'] and exp and sum(1 for v in rej.values() if v) >= 2:
